@@ -166,6 +166,7 @@ type zzSim struct {
 	// signed for each payment hash.
 	bobUnsignedFwd [2][]zzFwdRec
 	bobSignedFwd   map[lntypes.Hash]map[[2]uint64]bool
+	bobResponded   map[[3]uint64]string  // (conn, htlc id, connection epoch) -> response Bob sent
 	bobFailedUp    map[lntypes.Hash]bool // Bob sent update_fail upstream for a forward with this hash
 
 	initHold [3]lnwire.MilliSatoshi
@@ -305,6 +306,7 @@ func (s *zzSim) run() {
 	s.bobIn = [2]map[uint64]lntypes.Hash{{}, {}}
 	s.bobSignedFwd = map[lntypes.Hash]map[[2]uint64]bool{}
 	s.bobFailedUp = map[lntypes.Hash]bool{}
+	s.bobResponded = map[[3]uint64]string{}
 	s.firstFaultAt = -1
 	zzL(r, "config: %s", s.cfg)
 
@@ -525,8 +527,20 @@ func (s *zzSim) bobReceives(conn int, m lnwire.Message) {
 // bobSends is the online oracle on what Bob puts on the wire. s.mu is held;
 // runs on lnd goroutines.
 func (s *zzSim) bobSends(conn int, m lnwire.Message) {
+	// "at most one settle-or-fail per HTLC is delivered back to the incoming
+	// channel": within one connection epoch nothing is ever retransmitted,
+	// so a second response for the same incoming HTLC id is a second response
+	respond := func(id uint64, what string) {
+		k := [3]uint64{uint64(conn), id, uint64(s.conns[conn].epoch)}
+		if prev, dup := s.bobResponded[k]; dup {
+			s.parkViolation("double-response", "Bob sent %s for htlc id=%d on connection %d although he had already sent %s for it on the same connection (no reconnect in between): two responses for one HTLC", what, id, conn, prev)
+			return
+		}
+		s.bobResponded[k] = what
+	}
 	switch x := m.(type) {
 	case *lnwire.UpdateFulfillHTLC:
+		respond(x.ID, "update_fulfill_htlc")
 		h := lntypes.Hash(sha256.Sum256(x.PaymentPreimage[:]))
 		p := s.payByHash[h]
 		if p == nil {
@@ -549,8 +563,10 @@ func (s *zzSim) bobSends(conn int, m lnwire.Message) {
 		}
 		s.stat["probe_bob_settles_upstream"]++
 	case *lnwire.UpdateFailHTLC:
+		respond(x.ID, "update_fail_htlc")
 		s.bobFails(conn, x.ID)
 	case *lnwire.UpdateFailMalformedHTLC:
+		respond(x.ID, "update_fail_malformed_htlc")
 		s.bobFails(conn, x.ID)
 	case *lnwire.UpdateAddHTLC:
 		p := s.payByHash[lntypes.Hash(x.PaymentHash)]
